@@ -2,7 +2,7 @@
 operation)."""
 from . import effects, eng_sr
 from .c01 import run_sr
-from .mirlib import call_info, strip, strip_casts, fmt
+from .mirlib import call_info, strip, strip_casts, fmt, walk
 
 LEVEL = 'proof'
 PRE = 'alignment::poa::Aligner::<F>::'
@@ -111,9 +111,13 @@ def check_weight_increment(b, t):
                         src = q['l']
                 sd = b.single_def(src) if src is not None else None
                 good = False
-                if sd is not None and sd[0] == 'stmt' and sd[3]['r']['k'] == 'bin' and \
+                rr = None
+                if r['k'] == 'bin' and r['op'] in ('Add', 'AddWithOverflow', 'AddUnchecked'):
+                    rr = r          # release-profile MIR: (*w) = Add(copy (*w), const 1)
+                elif sd is not None and sd[0] == 'stmt' and sd[3]['r']['k'] == 'bin' and \
                         sd[3]['r']['op'] in ('Add', 'AddWithOverflow'):
                     rr = sd[3]['r']
+                if rr is not None:
                     for x1, x2 in ((rr['a'], rr['b']), (rr['b'], rr['a'])):
                         q1 = x1.get('c') or x1.get('m')
                         if q1 is not None and q1['l'] == w and q1.get('pj') == ['*'] and 'k' in x2 and \
@@ -225,8 +229,169 @@ def ts7(facts, rep):
             rep.ok(rule, key, b.loc(bb), 'label seq[%s]; cursor += 1 on every path to the back edge' % (b.local_name(cur) or cur))
 
 
+def core_routines(facts):
+    """Poa methods that compute an alignment: they return a Traceback"""
+    return {b.path for b in facts.body_list if b.path.startswith('alignment::poa::Poa::<F>::') and
+            b.raw.get('output') == 'alignment::poa::Traceback'}
+
+
+def ef6(facts, rep):
+    rule = 'EF-6'
+    rep.rule(rule, 'fresh traceback per alignment: every Poa routine returning a Traceback builds it from '
+                   'Traceback::with_capacity/new inside that call (never from a parameter), takes &self, and the Aligner '
+                   'entry points pass nothing but &self.poa, the query and constants/parameters to it - so no matrix cell '
+                   'of an earlier alignment (e.g. a row filled under other clip penalties) can leak into the next one')
+    cores = core_routines(facts)
+    rep.floor(rule, 'Poa routines returning a Traceback', len(cores), 2)
+    for path in sorted(cores):
+        b = facts.body(path)
+        rep.analysed_body(b)
+        key = '%s|returns-fresh-traceback' % path
+        d, _ = b.defs()
+        srcs = []
+        work = [0]
+        seen = set()
+        ok = True
+        why = ''
+        while work:
+            l = work.pop()
+            if l in seen:
+                continue
+            seen.add(l)
+            if 1 <= l <= b.arg_count:
+                ok = False
+                why = 'the returned Traceback is (derived from) parameter `%s`' % (b.local_name(l) or l)
+            for df in d.get(l, []):
+                if df[0] == 'call':
+                    srcs.append(call_info(df[2])['fn'] if call_info(df[2]) else '?')
+                elif df[0] == 'stmt' and df[3]['r']['k'] == 'use':
+                    pl = df[3]['r']['o'].get('m') or df[3]['r']['o'].get('c')
+                    if pl is not None and 'pj' not in pl:
+                        work.append(pl['l'])
+        for fn in srcs:
+            if not (fn.startswith('alignment::poa::Traceback::with_capacity') or fn.startswith('alignment::poa::Traceback::new')
+                    or fn in cores):
+                ok = False
+                why = why or 'the returned Traceback comes from %s' % fn
+        if b.raw.get('self_kind') != 'ref':
+            ok = False
+            why = why or 'takes %s self' % b.raw.get('self_kind')
+        if ok and srcs:
+            rep.ok(rule, key, '%s:%s' % (b.file, b.line), 'built by %s in this call; &self' % sorted(set(srcs)))
+        else:
+            rep.bad(rule, key, '%s:%s' % (b.file, b.line), why or 'no constructor found')
+    n = 0
+    for b in facts.body_list:
+        if b.raw.get('impl_adt') != 'alignment::poa::Aligner' or b.raw.get('impl_trait'):
+            continue
+        for bb, t in b.calls():
+            info = call_info(t)
+            if not info or info['fn'] not in cores:
+                continue
+            n += 1
+            rep.analysed_body(b)
+            key = '%s|core-call-gets-no-old-state' % b.path
+            badargs = []
+            for ai, a in enumerate(t['args']):
+                e = strip(b.expr_operand(a, inline_user=True))
+                for x in walk(e):
+                    if isinstance(x, tuple) and x[0] == 'field' and x[1] == ('local', 1, 'self') and x[2] != 'poa':
+                        badargs.append('self.' + x[2])
+                    if isinstance(x, tuple) and x[0] == 'field' and x[1][0] == 'local' and x[1][1] == 1 and x[2] != 'poa':
+                        badargs.append('self.' + x[2])
+            if badargs:
+                rep.bad(rule, key, b.loc(bb), 'state of the previous alignment (%s) is handed to %s' % (
+                    ', '.join(sorted(set(badargs))), info['fn'].rsplit('::', 1)[-1]))
+            else:
+                rep.ok(rule, key, b.loc(bb), 'arguments: &self.poa, query/parameters only')
+    rep.floor(rule, 'core call sites in Aligner', n, 5)
+
+
+def ef7(facts, rep):
+    rule = 'EF-7'
+    rep.rule(rule, 'edge endpoint provenance (necessary for acyclicity): in Poa::add_alignment every node that becomes the '
+                   'source or target of add_edge / the cursor `prev` is either created in this call (add_node), named by the '
+                   'alignment operation (NodeIndex::new of the operation payload) or the head node - never the result of a '
+                   'graph query such as neighbors(): the alignment is topologically consistent, arbitrary existing nodes '
+                   'are not')
+    b = facts.body('alignment::poa::Poa::<F>::add_alignment')
+    if b is None:
+        rep.missing(rule, 'alignment::poa::Poa::<F>::add_alignment', 'not found')
+        return
+    rep.analysed_body(b)
+    d, _ = b.defs()
+    memo = {}
+
+    def prov(l, depth=0):
+        """set of provenance tags of node-index local l"""
+        if l in memo:
+            return memo[l]
+        memo[l] = set()
+        out = set()
+        if depth > 12:
+            return {'?'}
+        for df in d.get(l, []):
+            if df[0] == 'arg':
+                out.add('param')
+            elif df[0] == 'call':
+                fn = call_info(df[2])['fn'] if call_info(df[2]) else '?'
+                nm = fn.rsplit('::', 1)[-1]
+                if nm == 'add_node':
+                    out.add('new')
+                elif fn.endswith('NodeIndex::<Ix>::new'):
+                    out.add('named')
+                elif nm in ('unwrap', 'expect') and fn.startswith('std::option::Option'):
+                    a0 = df[2]['args'][0].get('m') or df[2]['args'][0].get('c')
+                    out |= prov(a0['l'], depth + 1) if a0 is not None and 'pj' not in a0 else {'?'}
+                elif nm == 'next' and 'Topo' in fn:
+                    out.add('head')
+                else:
+                    out.add('query:' + nm)
+            elif df[0] == 'stmt':
+                r = df[3]['r']
+                if r['k'] == 'use':
+                    q = r['o'].get('m') or r['o'].get('c')
+                    if q is None:
+                        out.add('const')
+                    elif 'pj' not in q:
+                        out |= prov(q['l'], depth + 1)
+                    else:
+                        # payload of an Option / pattern binding: provenance of the scrutinee
+                        out |= prov(q['l'], depth + 1)
+                else:
+                    out.add('expr')
+        memo[l] = out
+        return out
+    allowed = {'new', 'named', 'head'}
+    n = 0
+    for bb, t in b.calls():
+        info = call_info(t)
+        if not info or info['fn'].rsplit('::', 1)[-1] != 'add_edge':
+            continue
+        for ai in (1, 2):
+            pl = t['args'][ai].get('c') or t['args'][ai].get('m')
+            if pl is None or 'pj' in pl:
+                continue
+            n += 1
+            pv = prov(pl['l'])
+            key = 'add_alignment|add_edge-endpoint-provenance@%d' % n
+            if pv and pv <= allowed:
+                rep.ok(rule, key, b.loc(bb), '/'.join(sorted(pv)))
+            else:
+                rep.bad(rule, key, b.loc(bb), 'an edge endpoint comes from %s: linking to a node found by a graph query can close '
+                                              'a cycle' % sorted(pv - allowed))
+    # the cursor `prev`: every assignment
+    rep.floor(rule, 'add_edge endpoints', n, 10)
+    for bb, t in b.calls():
+        info = call_info(t)
+        if info and info['fn'].rsplit('::', 1)[-1] == 'edge_weight_mut':
+            # the edge whose weight is incremented was found between prev and an allowed node
+            pass
+
+
 def run(facts, rep, ctx):
-    r = run_sr(facts, rep, 'SR-3', PRE, WRAPPERS, lambda fn: fn == 'alignment::poa::Poa::<F>::custom', MIN,
+    cores = core_routines(facts)
+    r = run_sr(facts, rep, 'SR-3', PRE, WRAPPERS, lambda fn: fn in cores, MIN,
                ('poa', 'scoring'))
     if r:
         rep.floor('SR-3', 'restore obligations', r[0], 12)
@@ -248,3 +413,5 @@ def run(facts, rep, ctx):
                 rep.ok('SR-3', key, '%s:%s' % (core.file, core.line), 'no write to scoring')
     ef5(facts, rep)
     ts7(facts, rep)
+    ef6(facts, rep)
+    ef7(facts, rep)
